@@ -1,5 +1,5 @@
-"""Self-test of the statement-level tie (tools/py2stmt.py + coq/Model/RenderCheck.v, RenderCheckD.v): single-token changes of the SOURCE TEXT of
-generated `serialize` and `deserialize` methods must never pass silently - each is either Unparsed (outside the statement subset) or reported
+"""Self-test of the statement-level tie (tools/py2stmt.py + coq/Model/RenderCheck.v, RenderCheckD.v, RenderCheckI.v): single-token changes of the SOURCE TEXT of
+generated `serialize`, `deserialize` and `__init__` methods must never pass silently - each is either Unparsed (outside the statement subset) or reported
 by Coq as a class whose statements differ from `render_serialize` of the model's body.
 
 usage: render_selftest.py [n_random_trees=6]"""
@@ -92,6 +92,71 @@ DMUTATIONS = [
     ('d-drop-read', r'^(\s*)reader\.get_\w+\(\)$', r'\1reader.position'),
 ]
 
+# (label, regex on one line of an __init__ method (the `def` line included), replacement)
+IMUTATIONS = [
+    ('i-drop-copy', r'= tuple\((\w+)\)$', r'= \1'),
+    ('i-opt-drop-copy', r'= None if (\w+) is None else tuple\((\w+)\)$', r'= \2'),
+    ('i-opt-test', r'= None if (\w+) is None else', r'= None if \1 is not None else'),
+    ('i-opt-branches', r'= None if (\w+) is None else (tuple\(\w+\))$', r'= \2 if \1 is None else None'),
+    ('i-copy-to-list', r'= tuple\((\w+)\)$', r'= list(\1)'),
+    ('i-len-of-param', r'= len\(self\._(\w+)\)', r'= len(\1)'),
+    ('i-len-guard', r' if self\._(\w+) is not None else None$', r' if self._\1 is None else None'),
+    ('i-len-drop-guard', r'(= len\(self\._\w+\)) if self\._\w+ is not None else None$', r'\1'),
+    ('i-len-add-guard', r'(= len\((self\._\w+)\))$', r'\1 if \2 is not None else None'),
+    ('i-len-to-const', r'= len\(self\._\w+\)', '= 0'),
+    ('i-slot-name', r'^(\s*)self\._(\w+) = (\w+)$', r'\1self._\2x = \3'),
+    ('i-public-attr', r'^(\s*)self\._(\w+) = (\w+)$', r'\1self.\2 = \3'),
+    ('i-source-none', r'^(\s*self\._\w+) = (\w+)$', r'\1 = None'),
+    ('i-source-other', r'^(\s*self\._\w+) = (\w+)$', r'\1 = self'),
+    ('i-default-value', r'(\w+: [^,()=]*) = None([,)])', r'\1 = 0\2'),
+    ('i-default-dropped', r'(: Optional\[[^=]*?\]) = None', r'\1'),
+    ('i-default-added', r'(\(self, \*, \w+: \w+)([,)])', r'\1 = None\2'),
+    ('i-positional', r'\(self, \*, ', '(self, '),
+    ('i-param-name', r'\(self, \*, (\w+):', r'(self, *, \1x:'),
+    ('i-kwargs', r'\):$', ', **kw):'),
+    ('i-literal-int', r'^(\s*self\._\w+) = (\d+)$', lambda m: f"{m.group(1)} = {int(m.group(2)) + 1}"),
+    ('i-literal-str', r'^(\s*self\._\w+) = "(.*)"$', r'\1 = "\2x"'),
+    ('i-literal-to-param', r'^(\s*self\._(\w+)) = (?:\d+|".*"|True|False)$', r'\1 = \2'),
+    ('i-drop-statement', r'^(\s*)self\._(\w+) = (.*)$', r'\1pass'),
+    ('i-dup-as-other-slot', r'^(\s*)self\._(\w+) = (\w+)$', r'\1self._\2 = self._\2 = \3'),
+]
+
+# (label, regex on one line of a property (from `@property` to its `return`), replacement)
+GMUTATIONS = [
+    ('g-return-slot', r'return self\._(\w+)$', r'return self._\1_'),
+    ('g-return-copy', r'return self\._(\w+)$', r'return list(self._\1)'),
+    ('g-name', r'def (\w+)\(self\) ->', r'def \1_(self) ->'),
+    ('g-not-a-property', r'@property', '@staticmethod'),
+    ('g-other-decorator', r'@property', '@functools.cached_property'),
+]
+
+
+def property_lines(src):
+    out, inside = [], False
+    for k, line in enumerate(src.split('\n')):
+        if re.match(r'\s*@property', line):
+            inside = True
+        if inside:
+            out.append(k)
+        if inside and re.match(r'\s*return ', line):
+            inside = False
+    return out
+
+
+def init_lines(src):
+    """indices of the lines of __init__ methods (the `def` line, up to the next decorator or `def`)"""
+    out, inside = [], False
+    for k, line in enumerate(src.split('\n')):
+        if re.match(r'\s*def __init__\(', line):
+            inside = True
+            out.append(k)
+            continue
+        if inside and re.match(r'\s*(def \w+\(|@\w+)', line):
+            inside = False
+        if inside:
+            out.append(k)
+    return out
+
 
 def deserialize_lines(src):
     """indices of the lines of deserialize bodies (between `def deserialize` and the next `def`)"""
@@ -136,9 +201,10 @@ def main():
     print(f"unmutated: {len(base)} trees, {render_stream.last['classes']} classes, {len(pb)} problems")
     entries, per = [], {}
     PER_KIND = 4
-    for label, pat, rep in MUTATIONS + DMUTATIONS:
+    for label, pat, rep in MUTATIONS + DMUTATIONS + IMUTATIONS + GMUTATIONS:
         per[label] = dict(sites=0, applied=0)
-        which = deserialize_lines if label.startswith('d-') else serialize_lines
+        which = (deserialize_lines if label.startswith('d-') else init_lines if label.startswith('i-')
+                 else property_lines if label.startswith('g-') else serialize_lines)
         for e in base:
             for path in sorted(e['result']['sources']):
                 src = e['result']['sources'][path]
